@@ -26,7 +26,7 @@ type optCase struct {
 		Bg    string            `json:"bg"`
 		Dup   bool              `json:"dup"`
 	} `json:"cfg"`
-	Notes map[string][]optNote        `json:"notes"`
+	Notes map[string][]optNote         `json:"notes"`
 	Eff   map[string]map[string]string `json:"eff"`
 }
 
@@ -72,6 +72,7 @@ type PS struct {
 	SkA1      int
 	SkA2      int
 	SkB1      int
+	CiSk      int
 }
 
 func (s *PS) Gx() int { return s.gxBacking }
@@ -91,6 +92,7 @@ type PD struct {
 	SkA1      int
 	SkA2      int
 	SkB1      int
+	CiSk      int
 	LtA       int
 	MpA       int
 	CvA       int
@@ -118,6 +120,9 @@ func c09Setup(o *optCase, methods []string, bFirst bool) string {
 		a.WriteString("type Convergen interface {\n")
 		for _, m := range []string{"A1", "A2"} {
 			if has[m] {
+				// a skip pattern that matches its field under case folding only, ABOVE the method's own toggles:
+				// the case rule that ends up in force decides, wherever the :skip line stands
+				a.WriteString("\t// :skip cisk\n")
 				a.WriteString(c09Lines("\t", o.Notes[m]))
 				if m == "A1" {
 					// list-valued and hook notations of A1 only: they must not reach A2 or B1
@@ -137,6 +142,7 @@ func c09Setup(o *optCase, methods []string, bFirst bool) string {
 		b.WriteString("// :convergen\n")
 		b.WriteString(c09Lines("", o.Notes["B"]))
 		b.WriteString("type B interface {\n")
+		b.WriteString("\t// :skip cisk\n")
 		b.WriteString(c09Lines("\t", o.Notes["B1"]))
 		b.WriteString("\t// :literal LtB 5\n\t// :skip SkB1\n\tB1(*PS) *PD\n}\n\n")
 	}
@@ -215,6 +221,16 @@ func c09Observe(fn *project.Func, method string, want map[string]string) (diffs 
 				eff = map[string]string{"on": "off", "off": "on"}[got]
 			}
 			diffs = append(diffs, fmt.Sprintf("%s: effective %s, required %s", p.setting, eff, want[p.setting]))
+		}
+	}
+	// the case-folding skip pattern follows the effective case rule, although its line stands above the toggles
+	if o, _ := kind("DST.CiSk"); true {
+		wantK := "skip"
+		if want["case"] == "on" {
+			wantK = map[string]string{"on": "assign", "off": "nomatch"}[want["match"]]
+		}
+		if o.K != wantK {
+			diffs = append(diffs, fmt.Sprintf("`:skip cisk` above the method's toggles: dst.CiSk is %s, with the effective case rule %s it must be %s", o.K, want["case"], wantK))
 		}
 	}
 	// list-valued and hook notations belong to the method that carries them
